@@ -8,6 +8,7 @@ import Genq.Model.Ws
 import Genq.Model.Doc
 import Genq.Model.Files
 import Genq.Model.Config
+import Genq.Model.Conv
 open Lean
 namespace Genq.Driver
 
@@ -280,6 +281,56 @@ def opConfig (op : String) (j : Json) : Except String Json := do
     return Json.mkObj [("validate", c.validate), ("forEnum", c.forEnum name), ("panics", Config.enumValueNamePanics c name)]
   | _ => throw s!"unknown op {op}"
 
+def optBool (j : Json) (k : String) : Option Bool :=
+  match j.getObjVal? k with
+  | .ok (.bool b) => some b
+  | _ => none
+
+def parseDir (j : Json) : Conv.Dir :=
+  { pointer := optBool j "pointer", omitempty := optBool j "omitempty", struct := optBool j "struct", flatten := optBool j "flatten",
+    bind := (j.getObjValAs? String "bind").toOption.getD "", typename := (j.getObjValAs? String "typename").toOption.getD "",
+    alias := (j.getObjValAs? String "alias").toOption.getD "" }
+
+partial def parseTRef (j : Json) : Except String Conv.TRef := do
+  match j.getObjVal? "elem" with
+  | .ok e => return .list (← parseTRef e) (← getBool j "nonNull")
+  | .error _ => return .named (← getStr j "name") (← getBool j "nonNull")
+
+def gtStr : Conv.GT → String
+  | .base => "B"
+  | .opaque r => s!"R({r})"
+  | .slice e => "[]" ++ gtStr e
+  | .ptr e => "*" ++ gtStr e
+  | .generic e => "O[" ++ gtStr e ++ "]"
+
+def opConv (op : String) (j : Json) : Except String Json := do
+  match op with
+  | "conv.fieldType" =>
+    let optional ← match (j.getObjValAs? String "optional").toOption.getD "" with
+      | "" | "value" => pure Conv.OptMode.value | "pointer" => pure Conv.OptMode.pointer | "generic" => pure Conv.OptMode.generic
+      | o => throw s!"optional {o}"
+    let cfg : Conv.Cfg := { optional := optional, structRefs := (optBool j "structRefs").getD false }
+    let kind ← match (← getStr j "kind") with
+      | "scalar" => pure Conv.Kind.scalar | "enum" => pure Conv.Kind.enum | "object" => pure Conv.Kind.object
+      | "interface" => pure Conv.Kind.interface | "union" => pure Conv.Kind.union | "input" => pure Conv.Kind.input
+      | k => throw s!"kind {k}"
+    let node := parseDir ((j.getObjVal? "node").toOption.getD (Json.mkObj []))
+    let opd := parseDir ((j.getObjVal? "opDir").toOption.getD (Json.mkObj []))
+    -- the for: table of the operation directive: [{type, field, dir}]
+    let table : Conv.ForTable ← match j.getObjVal? "forTable" with
+      | .ok (.arr a) => a.toList.mapM fun e => do pure (((← getStr e "type"), (← getStr e "field")), parseDir ((e.getObjVal? "dir").toOption.getD (Json.mkObj [])))
+      | _ => pure []
+    let isVar := (optBool j "isVariable").getD false
+    let pt := (j.getObjValAs? String "parentType").toOption.getD ""
+    let fn := (j.getObjValAs? String "fieldName").toOption.getD ""
+    let al := (j.getObjValAs? String "alias").toOption.getD ""
+    let ff := if isVar then ({} : Conv.Dir) else Conv.forLookup table pt fn al
+    let o := Conv.merge node ff opd
+    let t ← parseTRef (← j.getObjVal? "type")
+    return Json.mkObj [("type", gtStr (Conv.convertType cfg kind o t)), ("omitempty", Conv.omitemptyAfter cfg kind o t),
+      ("goAlias", o.alias), ("typename", o.typename)]
+  | _ => throw s!"unknown op {op}"
+
 def dispatch (j : Json) : Json :=
   let r : Except String Json := do
     let op ← getStr j "op"
@@ -291,6 +342,7 @@ def dispatch (j : Json) : Json :=
     else if op.startsWith "doc." then opDoc op j
     else if op.startsWith "files." then opFiles op j
     else if op.startsWith "config." then opConfig op j
+    else if op.startsWith "conv." then opConv op j
     else throw s!"unknown op {op}"
   let idf := match j.getObjVal? "id" with | .ok v => [("id", v)] | .error _ => []
   match r with
